@@ -143,6 +143,8 @@ type deliveryCtx struct {
 	mustIgn string // non-empty: reference says this message must not influence the node; value = reason
 	hadPP   bool   // C11: proposal already stored for (m.H, m.V) before delivery
 	inComm  bool
+	handoff bool // an election trigger or a sync of this node sits between its main loop and its worker (split hand-off):
+	// the main loop has already cancelled the contexts of the position the node is being told to leave
 }
 
 func (m *Monitors) PreStep(n *Node) *deliveryCtx {
@@ -314,6 +316,7 @@ func (m *Monitors) PreDelivery(n *Node, f *Flight) *deliveryCtx {
 		d.hadPP = true
 	}
 	d.inComm = m.w.Comm(msg.H).Has(n.Id)
+	d.handoff = n.pendTrig != nil || n.pendSync != nil || n.handSync != nil
 	return d
 }
 
@@ -369,11 +372,17 @@ func (m *Monitors) PostDelivery(d *deliveryCtx, effects []spi.Event, panicked bo
 	}
 	// ---- C11: honest emissions are accepted by correct peers in a matching state
 	if f.Honest && m.JudgeC11 && m.w.IsCorrect(f.From) && d.pre.H == msg.H && d.inComm {
-		m.judgeC11(d, effects)
+		if d.handoff {
+			// the node's timer for its current position has expired (or a sync arrived) and the main loop has acted on it; the
+			// worker has not yet: the node has been told to leave the position the stated precondition speaks about
+			m.Stats["C11 not judged: trigger or sync between main loop and worker"]++
+		} else {
+			m.judgeC11(d, effects)
+		}
 	}
 	// ---- election completeness: a leader that now holds stored votes of quorum weight for a view it has not passed
 	// becomes leader (sends its NEW_VIEW), unless it already did or already adopted a valid NEW_VIEW of that or a higher view
-	if msg.Env == ref.EnvVC && d.mustIgn == "" && d.pre.H == msg.H && d.inComm && !panicked {
+	if msg.Env == ref.EnvVC && d.mustIgn == "" && d.pre.H == msg.H && d.inComm && !panicked && !d.handoff {
 		m.judgeElection(d, effects)
 	}
 }
